@@ -117,6 +117,24 @@ inline std::vector<std::string> project(const std::vector<std::string>& in, cons
     for (auto& l : out) if (l != "T|") o2.push_back(l);
     return o2;
 }
+// field-wise comparison of two dump lines; a field that is "?" on either side is a wildcard (information the API cannot deliver)
+inline bool line_eq_wild(const std::string& a, const std::string& b) {
+    size_t i = 0, j = 0;
+    while (true) {
+        size_t ie = a.find('|', i), je = b.find('|', j);
+        std::string fa = a.substr(i, ie == std::string::npos ? std::string::npos : ie - i);
+        std::string fb = b.substr(j, je == std::string::npos ? std::string::npos : je - j);
+        if (fa != fb && fa != "?" && fb != "?") return false;
+        if ((ie == std::string::npos) != (je == std::string::npos)) return false;
+        if (ie == std::string::npos) return true;
+        i = ie + 1; j = je + 1;
+    }
+}
+inline int lines_first_diff(const std::vector<std::string>& a, const std::vector<std::string>& b) {
+    size_t n = std::min(a.size(), b.size());
+    for (size_t i = 0; i < n; i++) if (!line_eq_wild(a[i], b[i])) return (int)i;
+    return a.size() == b.size() ? -1 : (int)n;
+}
 inline std::string join(const std::vector<std::string>& v) { std::string o; for (auto& l : v) { o += l; o += '\n'; } return o; }
 
 // ---------------------------------------------------------------- virtual file system
@@ -389,11 +407,12 @@ struct Sax2H : public DefaultHandler, Collector {
         tick(); r->d.add("UE|" + esc16(n) + "|" + esc16(p) + "|" + esc16(s) + "|" + esc16(nd));
     }
     // LexicalHandler
-    void comment(const XMLCh* const c, const XMLSize_t n) override { tick(); r->d.add("C|" + esc16(c, n)); }
+    bool inDTD = false;
+    void comment(const XMLCh* const c, const XMLSize_t n) override { tick(); r->d.add(std::string(inDTD ? "DC|" : "C|") + esc16(c, n)); }
     void startCDATA() override { tick(); r->d.add("CS"); }
     void endCDATA() override { tick(); r->d.add("CE"); }
-    void startDTD(const XMLCh* const n, const XMLCh* const p, const XMLCh* const s) override { tick(); r->d.add("DT|" + esc16(n) + "|" + esc16(p) + "|" + esc16(s)); }
-    void endDTD() override { tick(); r->d.add("DTE"); }
+    void startDTD(const XMLCh* const n, const XMLCh* const p, const XMLCh* const s) override { tick(); inDTD = true; r->d.add("DT|" + esc16(n) + "|" + esc16(p) + "|" + esc16(s)); }
+    void endDTD() override { tick(); inDTD = false; r->d.add("DTE"); }
     void startEntity(const XMLCh* const n) override { tick(); r->d.add("RS|" + esc16(n)); }
     void endEntity(const XMLCh* const n) override { tick(); r->d.add("RE|" + esc16(n)); }
     // DeclHandler
